@@ -1,6 +1,9 @@
 import HdVerif.Proofs.Affine
 import HdVerif.Generated.T13w
 import HdVerif.Proofs.AffineTie
+import HdVerif.Proofs.AffinePairs
+import HdVerif.Proofs.AffineRound
+import HdVerif.Proofs.AffineCalls
 /-! # C10  Coordinate transforms are mutually consistent and invertible
 
 Property theorems only (helper lemmas live in `Proofs/Affine.lean`).  The statements are about the model
@@ -614,5 +617,201 @@ example : affineFromComponentsSrc (.seq [2, 3, 4]) none (some [10, 20, 30]) (som
     = .error .type := by decide +kernel
 example : tilePositionSrc 4 6 100 200 [0, 0, 0] [0, 1, 0, 1, 0, 0] (.seq [2, 3]) 2 5
     = .ok ((13, 21), ⟨40, 36, 0⟩) := by decide +kernel
+
+
+/-! ## the coplanarity decision is sound and complete (signed distances) -/
+
+/-- **the decision of `_are_images_coplanar`, exactly**, for ANY two planes: yes iff `1 − |n_a · n_b| ≤ 1e-5` and the SIGNED offset
+`(p_a − p_b) · n_a` is below `1e-5` in absolute value.  Which position, which normal and where an `abs` is applied is read from
+the source (tie T: `Gen.coplanarDistance`, `Gen.equalityTolerance`, target T13o); a decision on `|p_a · n_a|` vs `|p_b · n_b|`
+(planes mirrored about the origin) breaks this theorem. -/
+theorem coplanar_decision_iff (P Q : Plane) :
+    areCoplanar P.pos P.o Q.pos Q.o
+      = .ok (decide (1 - rabs (P.nrm.dot Q.nrm) ≤ eqTol ∧ rabs ((P.pos.sub Q.pos).dot P.nrm) < eqTol)) :=
+  areCoplanar_iff P Q
+
+/-- **`PixelToPixelTransformer` accepts exactly the pairs the decision accepts** (valid planes): refusal is an iff -/
+theorem pix2pix_accepted_iff (P Q : Plane) (hP : P.Valid) (hQ : Q.Valid) (c r : Int) :
+    (∃ q, pixToPix P.posL P.oriL P.ps Q.posL Q.oriL Q.ps c r = .ok q) ↔
+      (1 - rabs (P.nrm.dot Q.nrm) ≤ eqTol ∧ rabs ((P.pos.sub Q.pos).dot P.nrm) < eqTol) :=
+  pixToPix_ok_iff P Q hP hQ c r
+
+/-- **sound and complete w.r.t. "same plane"**: for parallel planes (equal or opposite unit normals) the pair is accepted iff
+the SIGNED distance of the target's origin from the source plane is below the tolerance - in particular two planes at `+d` and
+`−d` from the origin of the frame of reference are `2d` apart and refused -/
+theorem coplanar_iff_signed_distance (P Q : Plane) (hP : P.Valid) (hQ : Q.Valid) (hn : P.nrm.dot P.nrm = 1)
+    (hpar : Q.nrm = P.nrm ∨ Q.nrm = P.nrm.neg) (c r : Int) :
+    (∃ q, pixToPix P.posL P.oriL P.ps Q.posL Q.oriL Q.ps c r = .ok q) ↔ rabs ((Q.pos.sub P.pos).dot P.nrm) < eqTol :=
+  pixToPix_ok_iff_distance P Q hP hQ hn hpar c r
+
+/-! ## pixel-to-pixel transformers: inverse pairs, composition, identity; image-to-image = pixel-to-pixel between half pixels -/
+
+/-- **P2P(B,A) ∘ P2P(A,B) = id** for valid planes in the same plane: both constructors accept, an in-plane index `(x, y, 0)` (any
+rational) goes to an in-plane `(x', y', 0)` - so dropping the slice index loses nothing - and comes back -/
+theorem pix2pix_mutually_inverse (P Q : Plane) (hP : P.Valid) (hQ : Q.Valid) (hn : P.nrm.dot P.nrm = 1) (h : SamePlane P Q) :
+    ∃ ab ba, pixToPixAffine P.posL P.oriL P.ps Q.posL Q.oriL Q.ps = .ok ab ∧
+      pixToPixAffine Q.posL Q.oriL Q.ps P.posL P.oriL P.ps = .ok ba ∧
+      ∀ x y : Rat, ∃ x' y', ab.apply ⟨x, y, 0⟩ = ⟨x', y', 0⟩ ∧ ba.apply ⟨x', y', 0⟩ = ⟨x, y, 0⟩ :=
+  pixToPix_roundtrip P Q hP hQ hn h
+
+/-- **P2P(B,C) ∘ P2P(A,B) = P2P(A,C)** for three valid planes in the same plane -/
+theorem pix2pix_composes (P Q R : Plane) (hP : P.Valid) (hQ : Q.Valid) (hR : R.Valid) (hn : P.nrm.dot P.nrm = 1)
+    (h1 : SamePlane P Q) (h2 : SamePlane Q R) :
+    ∃ ab bc ac, pixToPixAffine P.posL P.oriL P.ps Q.posL Q.oriL Q.ps = .ok ab ∧
+      pixToPixAffine Q.posL Q.oriL Q.ps R.posL R.oriL R.ps = .ok bc ∧
+      pixToPixAffine P.posL P.oriL P.ps R.posL R.oriL R.ps = .ok ac ∧
+      ∀ x y : Rat, ∃ x' y', ab.apply ⟨x, y, 0⟩ = ⟨x', y', 0⟩ ∧ bc.apply ⟨x', y', 0⟩ = ac.apply ⟨x, y, 0⟩ :=
+  pixToPix_compose P Q R hP hQ hR hn h1 h2
+
+/-- **P2P(A,A) = id** -/
+theorem pix2pix_identity (P : Plane) (hP : P.Valid) (hn : P.nrm.dot P.nrm = 1) :
+    ∃ a, pixToPixAffine P.posL P.oriL P.ps P.posL P.oriL P.ps = .ok a ∧ ∀ x y : Rat, a.apply ⟨x, y, 0⟩ = ⟨x, y, 0⟩ :=
+  pixToPix_self P hP hn
+
+/-- **image-to-image = pixel-to-pixel between the two half-pixel shifts**, for any accepted input: `I2I(x, y) = P2P(x − ½, y − ½) + ½`
+(the four correction vectors are regenerated, T13o) -/
+theorem img2img_is_pix2pix_shifted {posF oriF : List Rat} {psF : Spacing} {posT oriT : List Rat} {psT : Spacing} {a : Aff}
+    (h : imgToImgAffine posF oriF psF posT oriT psT = .ok a) :
+    ∃ b, pixToPixAffine posF oriF psF posT oriT psT = .ok b ∧
+      ∀ x y : Rat, a.apply ⟨x, y, 0⟩ = (b.apply ⟨x - 1 / 2, y - 1 / 2, 0⟩).add ⟨1 / 2, 1 / 2, 0⟩ :=
+  imgToImg_conjugates_pixToPix h
+
+/-! ## rounding and the out-of-plane refusal -/
+
+/-- **`round_output`** (`np.around(..).astype(int)`, Python `round`): the nearest integer, ties to the even one.  `roundHalfEven`
+is hand-written; tie C: the `round` cases of the `transformer` stream (every multiple of ½ in [−4.5, 4.5]). -/
+theorem round_output_spec (x : Rat) :
+    rabs (x - ((roundHalfEven x : Int) : Rat)) ≤ 1 / 2 ∧
+    (rabs (x - ((roundHalfEven x : Int) : Rat)) = 1 / 2 → roundHalfEven x % 2 = 0) :=
+  roundHalfEven_spec x
+
+/-- a reference point whose un-rounded indices lie within less than half a pixel (and half a slice) of the integer triple
+`(c, r, s)` is mapped to exactly `(c, r, s)` by the rounding transformer -/
+theorem ref_to_pixel_rounded_near (pos ori : List Rat) (ps : Spacing) (sbs : Rat) (v p : V3) (c r s : Int)
+    (hp : refToPix pos ori ps sbs v = .ok p) (hx : rabs (p.x - (c : Rat)) < 1 / 2) (hy : rabs (p.y - (r : Rat)) < 1 / 2)
+    (hz : rabs (p.z - (s : Rat)) < 1 / 2) : refToPixRounded pos ori ps sbs v = .ok (c, r, s) := by
+  simp only [refToPixRounded, hp, bind, Except.bind, pure, Except.pure, roundHalfEven_of_near _ _ hx,
+    roundHalfEven_of_near _ _ hy, roundHalfEven_of_near _ _ hz]
+
+/-- **`drop_slice_index` refuses a point iff it lies more than half a slice spacing off the plane**, measured as the signed
+distance `(v − position) · n` (valid plane, unit normal, positive slice spacing) -/
+theorem drop_slice_index_refused_iff (P : Plane) (h : P.Valid) (hn : P.nrm.dot P.nrm = 1) {sbs : Rat} (hs : 0 < sbs) (v : V3) :
+    refToPixDrop P.posL P.oriL P.ps sbs v = .error .runtime ↔ sbs / 2 < rabs ((v.sub P.pos).dot P.nrm) :=
+  refToPixDrop_refused_iff P h hn hs v
+
+theorem drop_slice_index_accepted_iff (P : Plane) (h : P.Valid) (hn : P.nrm.dot P.nrm = 1) {sbs : Rat} (hs : 0 < sbs) (v : V3) :
+    (∃ q, refToPixDrop P.posL P.oriL P.ps sbs v = .ok q) ↔ rabs ((v.sub P.pos).dot P.nrm) ≤ sbs / 2 :=
+  refToPixDrop_ok_iff P h hn hs v
+
+/-! ## batches: `__call__` of the six classes on arrays
+
+`callSpec` interprets the spec of a `__call__` that target TC10g regenerates from the source of each class. -/
+
+/-- the six regenerated specs (shape[1], integer dtype only, stacked constant rows, rows returned, out-of-plane test, rounding) -/
+theorem call_specs_table :
+    Gen.pixToRefCallSpec = (2, true, [0, 1], 3, none, false) ∧
+    Gen.refToPixCallSpec = (3, false, [1], 3, some (2, 1 / 2, 2), true) ∧
+    Gen.pixToPixCallSpec = (2, true, [0, 1], 2, none, true) ∧
+    Gen.imgToRefCallSpec = (2, false, [0, 1], 3, none, false) ∧
+    Gen.refToImgCallSpec = (3, false, [1], 3, some (2, 1 / 2, 2), false) ∧
+    Gen.imgToImgCallSpec = (2, false, [0, 1], 2, none, false) :=
+  callSpecs_table
+
+/-- **only arrays of shape (n, k) with the class's k - and an integer dtype where the class demands one - are accepted**, and
+the answer has one row per input row (any spec, any affine, any flags) -/
+theorem batch_accepted_only_well_shaped (s : CallSpec) (a : Aff) (d r : Bool) (b : Batch) (out : List (List Rat))
+    (h : callSpec s a d r b = .ok out) :
+    b.ndim = 2 ∧ b.width = s.width ∧ (s.intOnly = true → b.isInt = true) ∧ out.length = b.rows.length :=
+  callSpec_ok_shape s a d r b out h
+
+/-- **every other shape / dtype is refused**, with the kind of error the code raises: IndexError for 0-d / 1-d arrays, ValueError
+for a wrong `shape[1]`, TypeError for a non-integer dtype where integers are demanded, ValueError for more than two dimensions -/
+theorem batch_refusals (s : CallSpec) (a : Aff) (d r : Bool) (b : Batch) :
+    (b.ndim < 2 → callSpec s a d r b = .error .index) ∧
+    (2 ≤ b.ndim → b.width ≠ s.width → callSpec s a d r b = .error .value) ∧
+    (2 ≤ b.ndim → b.width = s.width → s.intOnly = true → b.isInt = false → callSpec s a d r b = .error .type) ∧
+    (2 < b.ndim → b.width = s.width → (s.intOnly = true → b.isInt = true) → callSpec s a d r b = .error .value) :=
+  ⟨callSpec_lowdim s a d r b, callSpec_width s a d r b, callSpec_dtype s a d r b, callSpec_highdim s a d r b⟩
+
+/-- **PixelToReferenceTransformer on an (n, 2) integer array = the point map on every row** (n = 0 included) -/
+theorem batch_pixel_to_reference {pos ori : List Rat} {ps : Spacing} {a : Aff} (ha : pixToRefAffine pos ori ps = .ok a)
+    (pts : List (Int × Int)) :
+    pixToRefCall pos ori ps (Batch.ofRows 2 true (rowsOfInts pts))
+      = .ok (pts.map fun p => (a.apply ⟨(p.1 : Rat), (p.2 : Rat), 0⟩).toList) :=
+  pixToRefCall_batch ha pts
+
+theorem batch_image_to_reference {pos ori : List Rat} {ps : Spacing} {a : Aff} (ha : imgToRefAffine pos ori ps = .ok a) (i : Bool)
+    (pts : List (Rat × Rat)) :
+    imgToRefCall pos ori ps (Batch.ofRows 2 i (rowsOfPairs pts)) = .ok (pts.map fun p => (a.apply ⟨p.1, p.2, 0⟩).toList) :=
+  imgToRefCall_batch ha i pts
+
+/-- **ReferenceToPixelTransformer on an (n, 3) array**: under `drop_slice_index` the whole batch is refused as soon as ONE point is
+more than half a slice off (tested on the un-rounded slice coordinate, BEFORE rounding), otherwise the slice index is cut; then
+every entry is rounded under `round_output`.  An empty batch gives an empty result under every flag (defect C10-empty-batch-drop). -/
+theorem batch_reference_to_pixel {pos ori : List Rat} {ps : Spacing} {sbs : Rat} {a : Aff}
+    (ha : invAffineFromAttributes pos ori ps sbs = .ok a) (r d i : Bool) (vs : List V3) :
+    refToPixCall pos ori ps sbs r d (Batch.ofRows 3 i (rowsOfPoints vs))
+      = if d && vs.any (fun v => rabs (a.apply v).z > 1 / 2) then .error .runtime
+        else .ok (vs.map fun v => (if d then [(a.apply v).x, (a.apply v).y] else (a.apply v).toList).map (rnd r)) :=
+  refToPixCall_batch ha r d i vs
+
+theorem batch_reference_to_image {pos ori : List Rat} {ps : Spacing} {sbs : Rat} {a : Aff}
+    (ha : refToImgAffine pos ori ps sbs = .ok a) (d i : Bool) (vs : List V3) :
+    refToImgCall pos ori ps sbs d (Batch.ofRows 3 i (rowsOfPoints vs))
+      = if d && vs.any (fun v => rabs (a.apply v).z > 1 / 2) then .error .runtime
+        else .ok (vs.map fun v => if d then [(a.apply v).x, (a.apply v).y] else (a.apply v).toList) :=
+  refToImgCall_batch ha d i vs
+
+theorem batch_pixel_to_pixel {posF oriF : List Rat} {psF : Spacing} {posT oriT : List Rat} {psT : Spacing} {a : Aff}
+    (ha : pixToPixAffine posF oriF psF posT oriT psT = .ok a) (r : Bool) (pts : List (Int × Int)) :
+    pixToPixCall posF oriF psF posT oriT psT r (Batch.ofRows 2 true (rowsOfInts pts))
+      = .ok (pts.map fun p => [rnd r (a.apply ⟨(p.1 : Rat), (p.2 : Rat), 0⟩).x, rnd r (a.apply ⟨(p.1 : Rat), (p.2 : Rat), 0⟩).y]) :=
+  pixToPixCall_batch ha r pts
+
+theorem batch_image_to_image {posF oriF : List Rat} {psF : Spacing} {posT oriT : List Rat} {psT : Spacing} {a : Aff}
+    (ha : imgToImgAffine posF oriF psF posT oriT psT = .ok a) (i : Bool) (pts : List (Rat × Rat)) :
+    imgToImgCall posF oriF psF posT oriT psT (Batch.ofRows 2 i (rowsOfPairs pts))
+      = .ok (pts.map fun p => [(a.apply ⟨p.1, p.2, 0⟩).x, (a.apply ⟨p.1, p.2, 0⟩).y]) :=
+  imgToImgCall_batch ha i pts
+
+/-- **`map_pixel_into_coordinate_system` agrees with the batch transformer**: the helper as the source writes it (transformer
+with the forwarded arguments, `np.array([index], dtype=int)`, first row; structure regenerated, TC10g) is the point map -/
+theorem helper_pixel_agrees_batch (c r : Int) (pos ori : List Rat) (ps : Spacing) :
+    mapPixelIntoCoordinateSystemB [c, r] pos ori ps = pixToRef pos ori ps c r :=
+  mapPixel_eq c r pos ori ps
+
+/-- an index that is not a pair is refused by the helper -/
+theorem helper_pixel_refuses_non_pairs (index : List Int) (h : index.length ≠ 2) {pos ori : List Rat} {ps : Spacing} {a : Aff}
+    (ha : pixToRefAffine pos ori ps = .ok a) : mapPixelIntoCoordinateSystemB index pos ori ps = .error .value :=
+  mapPixel_wrong_length index h ha
+
+/-- **`map_coordinate_into_pixel_matrix` agrees with the rounding batch transformer** (constructor flags at their regenerated
+defaults, default slice spacing 1; Python's `round` after `np.around` changes nothing) -/
+theorem helper_coordinate_agrees_batch (v : V3) (pos ori : List Rat) (ps : Spacing) (sbs : Option Rat) :
+    mapCoordinateIntoPixelMatrixB v.toList pos ori ps sbs = refToPixRounded pos ori ps (sbs.getD 1) v :=
+  mapCoordinate_eq v pos ori ps sbs
+
+/-! non-vacuity for the sections above -/
+
+/-- a partner of `exPlane` in the same plane with the OPPOSITE normal (row / column directions exchanged) -/
+def exPlaneFlip : Plane := ⟨exPlaneB.pos, ⟨exPlane.o.col, exPlane.o.row⟩, 3 / 2, 1 / 8⟩
+example : SamePlane exPlane exPlaneB := ⟨Or.inl (by decide +kernel), by decide +kernel⟩
+example : SamePlane exPlane exPlaneFlip := ⟨Or.inr (by decide +kernel), by decide +kernel⟩
+example : exPlaneFlip.Valid := ⟨by decide +kernel, by decide +kernel, by decide +kernel⟩
+/-- mirrored about the origin of the frame of reference: parallel, equal |distance|, refused -/
+example : pixToPix [0, 0, 5] [1, 0, 0, 0, 1, 0] (.seq [1, 1]) [0, 0, -5] [1, 0, 0, 0, 1, 0] (.seq [1, 1]) 0 0 = .error .value := by
+  decide +kernel
+example : refToPixDrop exPlane.posL exPlane.oriL exPlane.ps 2 ⟨1 + 48 / 65 * 3, -2 - 36 / 65 * 3, 7 / 2 + 25 / 65 * 3⟩ = .error .runtime := by
+  decide +kernel
+example : (refToPixDrop exPlane.posL exPlane.oriL exPlane.ps 2 ⟨1 + 48 / 65 / 2, -2 - 36 / 65 / 2, 7 / 2 + 25 / 65 / 2⟩).isOk = true := by
+  decide +kernel
+example : roundHalfEven (5 / 2) = 2 ∧ roundHalfEven (7 / 2) = 4 ∧ roundHalfEven (-5 / 2) = -2 ∧ roundHalfEven (12 / 5) = 2 := by
+  decide +kernel
+example : refToPixCall exPlane.posL exPlane.oriL exPlane.ps 2 true true (Batch.ofRows 3 false []) = .ok [] := by decide +kernel
+example : (pixToRefCall exPlane.posL exPlane.oriL exPlane.ps (Batch.ofRows 2 true [[7, -3], [0, 0]])).map List.length = .ok 2 := by
+  decide +kernel
+example : pixToRefCall exPlane.posL exPlane.oriL exPlane.ps (Batch.ofRows 2 false [[7, -3]]) = .error .type := by decide +kernel
+example : pixToRefCall exPlane.posL exPlane.oriL exPlane.ps ⟨1, 0, true, []⟩ = .error .index := by decide +kernel
+example : mapPixelIntoCoordinateSystemB [7, -3, 1] exPlane.posL exPlane.oriL exPlane.ps = .error .value := by decide +kernel
 
 end HdVerif.C10
